@@ -836,6 +836,37 @@ impl Sim {
                 );
             }
         }
+        // e.0 (RFC 9002 §6.2.1 / A.7): a client that is not yet certain that the server has validated its
+        // address (no Handshake ACK seen, handshake not confirmed) does not reset the back-off on an ACK --
+        // the role and the two phase flags are the ones the harness itself set, not read back from the code
+        if let Op::Ack { .. } = op {
+            if !self.peer_validated() {
+                self.stat("acks_before_peer_address_validation");
+                if post.pto_count < pre.pto_count {
+                    self.fail(
+                        "C13.pto.doubling:reset-before-address-validation".into(),
+                        format!(
+                            "client without a Handshake ACK and without handshake confirmation: an ACK reset pto_count {} -> {}; the probe interval stops doubling while the server may still be amplification-limited",
+                            pre.pto_count, post.pto_count
+                        ),
+                    );
+                }
+                // d.0 (RFC 9002 §6.2.2.1 / A.8): such a client keeps the probe timer armed even when nothing
+                // ack-eliciting is in flight (anti-deadlock probe); checked after an ACK that newly acknowledged
+                // a packet the controller still held (one it had already declared lost is not "newly acknowledged" for it and the
+                // RFC returns early), i.e. where OnAckReceived ends in SetLossDetectionTimer
+                let any_ae = (0..3).any(|e| self.led[e].values().any(|p| p.st == St::Out && p.ae));
+                if newly.iter().any(|n| !n.2) && !any_ae && !self.abandoned && !self.amp_limited && !tick_err && !self.discarded.iter().all(|d| *d) {
+                    self.stat("anti_deadlock_timer_checks");
+                    if post.loss_detection_timer.is_none() {
+                        self.fail(
+                            "C13.timer.coverage:client-anti-deadlock-unarmed".into(),
+                            "client without a Handshake ACK and without handshake confirmation has nothing ack-eliciting in flight after this ACK and the loss-detection timer is not armed: if the server is amplification-limited nobody ever sends again".into(),
+                        );
+                    }
+                }
+            }
+        }
         let need_pre: usize = pre.need_send_ack_eliciting_packets.iter().sum();
         let need_post: usize = post.need_send_ack_eliciting_packets.iter().sum();
         if need_post > need_pre {
